@@ -141,6 +141,11 @@ pub enum Op
     Nop,
     /// Drop the harness-held auto-despawn signal of a trigger entity (prepared at setup, see `Config::auto_ents`).
     DropSignal(EntId),
+    /// `EntityCommands::add_world_reactor::<HarnessEwr>(data)`: registers the entity world reactor's two triggers
+    /// (entity event A, entity mutation A) on the entity (see `Config::ewr`).
+    EwrAdd(EntId),
+    /// `EntityReactor::<HarnessEwr>::remove` of the entity's first (0), second (1) or both (2) triggers.
+    EwrRemove(EntId, u8),
 }
 
 impl Op
@@ -159,7 +164,7 @@ impl Op
         match *self
         {
             Op::EntityEvent(_, e) | Op::Insert(_, e, _) | Op::Mutate(_, e, _) | Op::MutateNow(e, _) | Op::RemoveComp(_, e) |
-            Op::Clear(e) | Op::Despawn(e) | Op::DespawnRecursive(e) | Op::DropSignal(e) => Some(e),
+            Op::Clear(e) | Op::Despawn(e) | Op::DespawnRecursive(e) | Op::DropSignal(e) | Op::EwrAdd(e) | Op::EwrRemove(e, _) => Some(e),
             _ => None,
         }
     }
